@@ -27,7 +27,13 @@ REQUIRED = ["Sqfs.C05." + n for n in (
     "meta_seek_safe", "meta_read_safe", "meta_read_terminates", "meta_history_safe", "get_block_safe",
     "get_fragment_safe", "stream_fill_safe", "data_read_safe", "read_table_safe", "read_table_terminates", "read_inode_file_safe", "read_inode_slink_safe",
     "read_inode_dir_ext_safe", "read_dir_ent_safe", "readdir_progress", "unpack_dir_index_safe",
-    "resolve_compare_safe", "fill_dir_terminates", "dir_rec_terminates")]
+    "resolve_compare_safe", "fill_dir_terminates", "dir_rec_terminates",
+    "fill_dir_nodes_linear", "dir_rec_nodes_linear", "fill_dir_depth_bounded", "dir_rec_depth_bounded",
+    "fill_dir_v_terminates", "dir_rec_v_terminates",
+    "super_read_safe", "id_table_read_safe", "index_to_id_safe", "frag_table_read_safe", "frag_lookup_safe",
+    "xattr_load_safe", "xattr_get_desc_safe", "xattr_seek_kv_safe", "xattr_read_key_safe", "xattr_read_value_safe",
+    "xattr_read_safe", "xattr_read_all_safe", "xattr_read_all_terminates", "open_dir_states",
+    "dir_entry_from_inode_safe", "read_link_safe")]
 
 # known-finding keys (exactly the strings in known_findings.d/C05.json)
 K_D3 = "D3:sqfs_meta_reader_read:after-failed-seek"
@@ -231,6 +237,402 @@ def gen_resolve_lines(rng):
     return lines
 
 
+
+# ---------------------------------------------------------------- tables, xattr reader, directory reader (ReaderTables)
+B16 = [0, 1, 2, 255, 256, 0x7FFF, 0x8000, 0xFFFE, 0xFFFF]
+B32X = [0, 1, 2, 0xFFFF, 0x10000, 0x10001, 0x7FFFFFFF, 0x80000000, 0x80000001, 0xFFFFFFF0, 0xFFFFFFFE, 0xFFFFFFFF]
+B64X = [0, 1, 95, 96, 97, 0xFFFFFFFF, 2 ** 32, 2 ** 32 + 1, 2 ** 63, 2 ** 64 - 8192, 2 ** 64 - 16, 2 ** 64 - 2, 2 ** 64 - 1]
+
+
+def mblock(data):
+    """uncompressed metadata block"""
+    return struct.pack("<H", 0x8000 | len(data)) + bytes(data)
+
+
+def mblock_toy(pattern, n):
+    """toy-compressed metadata block that unpacks to n bytes: pattern repeated"""
+    body = struct.pack("<H", n) + bytes(pattern)
+    return struct.pack("<H", len(body)) + body
+
+
+def toy_unpacked(pattern, n):
+    return bytes(pattern[i % len(pattern)] for i in range(n)) if pattern else bytes([0x5a]) * n
+
+
+def sb_line(flags=0, id_count=1, frag_count=0, bytes_used=0, idt=0, xat=2 ** 64 - 1, ino=96, dts=96, fts=2 ** 64 - 1, ets=2 ** 64 - 1, root=0, bs=4096):
+    return "sb %d %d %d %d %d %d %d %d %d %d %d %d" % (flags & 0xFFFF, id_count & 0xFFFF, frag_count & 0xFFFFFFFF, bytes_used, idt, xat, ino, dts, fts, ets, root, bs)
+
+
+def valid_super(rng):
+    log = rng.randint(12, 20)
+    return {"magic": 0x73717368, "inode_count": 5, "mtime": 0, "block_size": 1 << log, "frag_count": 1, "comp": rng.randint(1, 6), "log": log,
+            "flags": 0, "id_count": 1, "vmaj": 4, "vmin": 0, "root": 0, "used": 4096, "idt": 3000, "xat": 2 ** 64 - 1, "ino": 96, "dts": 1000,
+            "fts": 2000, "ets": 2 ** 64 - 1}
+
+
+def pack_super(f):
+    return struct.pack("<IIIIIHHHHHHQQQQQQQQ", f["magic"] & 0xFFFFFFFF, f["inode_count"], f["mtime"], f["block_size"] & 0xFFFFFFFF, f["frag_count"],
+                       f["comp"] & 0xFFFF, f["log"] & 0xFFFF, f["flags"], f["id_count"] & 0xFFFF, f["vmaj"] & 0xFFFF, f["vmin"] & 0xFFFF, f["root"],
+                       f["used"], f["idt"], f["xat"], f["ino"], f["dts"], f["fts"], f["ets"])
+
+
+def gen_super_lines(rng):
+    lines = []
+    for _ in range(10):
+        f = valid_super(rng)
+        k = rng.random()
+        if k < 0.15:
+            pass
+        elif k < 0.3:
+            f["block_size"] = pick(rng, [0, 1, 2048, 4095, 4096, 4097, 6144, 1 << 20, (1 << 20) + 1, 1 << 21, 1 << 31, 0xFFFFFFFF, f["block_size"] * 2, f["block_size"] // 2])
+        elif k < 0.45:
+            f["log"] = pick(rng, [0, 11, 12, 20, 21, 32, 64, 0xFFFF, f["log"] + 1, f["log"] - 1])
+            if rng.random() < 0.5:
+                f["block_size"] = (1 << f["log"]) & 0xFFFFFFFF if f["log"] < 40 else 0
+        elif k < 0.55:
+            f["magic"] = pick(rng, [0, 0x73717369, 0x68737173, 0xFFFFFFFF])
+        elif k < 0.65:
+            f[pick(rng, ["vmaj", "vmin"])] = pick(rng, [0, 1, 3, 4, 5, 0xFFFF])
+        elif k < 0.8:
+            f["comp"] = pick(rng, [0, 1, 6, 7, 0xFFFF])
+        elif k < 0.9:
+            f["id_count"] = pick(rng, [0, 1, 0xFFFF])
+        blob = pack_super(f) + bytes(rng.randrange(256) for _ in range(pick(rng, [0, 0, 4, 100])))
+        if rng.random() < 0.15:
+            blob = blob[:pick(rng, [0, 1, 50, 95])]
+        lines.append("super " + hx(blob))
+    return lines
+
+
+def table_image(rng, raw, lower_pad=96, short_last=0, bad_loc=None, toy_first=False):
+    """pad, metadata blocks holding `raw` (8192 per block), then the location array; returns (img, lower, table_start, block positions)"""
+    img = bytearray(rng.randrange(256) for _ in range(lower_pad))
+    lower = len(img)
+    locs = []
+    chunks = [raw[i:i + 8192] for i in range(0, len(raw), 8192)] or []
+    for ci, ch in enumerate(chunks):
+        locs.append(len(img))
+        if ci == len(chunks) - 1 and short_last:
+            ch = ch[:max(0, len(ch) - short_last)]
+        img += mblock(ch)
+    start = len(img)
+    if bad_loc is not None and locs:
+        locs[bad_loc[0] % len(locs)] = bad_loc[1]
+    img += b"".join(struct.pack("<Q", l) for l in locs)
+    return img, lower, start, locs
+
+
+def gen_table_lines(rng):
+    lines = []
+    # ---- id table
+    for _ in range(3):
+        idc = pick(rng, [1, 2, 100, 2048, 2049, 4096, 5000])
+        if toy := (rng.random() < 0.2 and idc <= 2048):
+            pat = bytes(rng.randrange(256) for _ in range(8))
+            raw = toy_unpacked(pat, idc * 4)
+        else:
+            raw = bytes(rng.randrange(256) for _ in range(idc * 4))
+        k = rng.random()
+        short = pick(rng, [1, 4, 100]) if 0.1 < k < 0.2 else 0
+        img, lower, start, locs = table_image(rng, raw, short_last=short)
+        if toy:
+            img = bytearray(img[:lower]) + mblock_toy(pat, idc * 4)
+            start = len(img)
+            img += struct.pack("<Q", lower)
+            locs = [lower]
+        bad = None
+        if 0.2 < k < 0.35 and locs:
+            bad = (rng.randrange(len(locs)), pick(rng, [0, lower - 1, start, start + 8, len(img), 2 ** 64 - 1, locs[0] + 1]))
+            struct.pack_into("<Q", img, start + 8 * bad[0], bad[1])
+        img += bytes(rng.randrange(256) for _ in range(pick(rng, [0, 7, 64])))
+        used = len(img)
+        if 0.35 < k < 0.42:
+            img = img[:len(img) - pick(rng, [1, 8, 9, 70])]           # truncated file
+        fields = dict(id_count=idc, bytes_used=used, idt=start, dts=lower)
+        m = rng.random()
+        if m < 0.1:
+            fields["id_count"] = pick(rng, [0, idc + 1, idc - 1, 0xFFFF, 2048, 2049])
+        elif m < 0.2:
+            fields["bytes_used"] = pick(rng, [0, start, start + 1, start - 1, 2 ** 64 - 1])
+        elif m < 0.3:
+            fields["fts"] = pick(rng, [lower, lower + 1, start - 1, start, (locs[0] + 1) if locs else 0, 0])
+        elif m < 0.4:
+            fields["ets"] = pick(rng, [lower, lower + 1, start - 1, start, (locs[-1] + 1) if locs else 0, 0])
+        elif m < 0.5:
+            fields["dts"] = pick(rng, [0, lower + 1, (locs[0] + 1) if locs else 0, start, start + 1, 2 ** 64 - 1])
+        elif m < 0.55:
+            fields["idt"] = pick(rng, [0, start + 1, start - 8, used, used - 1, 2 ** 64 - 1])
+        lines += ["img " + hx(img), sb_line(**fields), "idtable"]
+        n = fields["id_count"] & 0xFFFF
+        for i in sorted({0, 1, max(n - 1, 0), n, n + 1 if n < 0xFFFF else 0, 0xFFFF, 2048}):
+            lines.append("idx %d" % i)
+    # ---- fragment table
+    for _ in range(3):
+        cnt = pick(rng, [1, 2, 511, 512, 513, 1024])
+        raw = bytes(rng.randrange(256) for _ in range(cnt * 16))
+        k = rng.random()
+        img, lower, start, locs = table_image(rng, raw, short_last=(pick(rng, [1, 16]) if 0.1 < k < 0.2 else 0))
+        if 0.2 < k < 0.35:
+            struct.pack_into("<Q", img, start + 8 * rng.randrange(len(locs)), pick(rng, [0, lower - 1, start, len(img), 2 ** 64 - 1]))
+        idt = len(img) + pick(rng, [0, 16])
+        img += bytes(rng.randrange(256) for _ in range(idt - len(img) + 32))
+        used = len(img)
+        fields = dict(frag_count=cnt, bytes_used=used, idt=idt, dts=lower, fts=start)
+        m = rng.random()
+        if m < 0.12:
+            fields["frag_count"] = pick(rng, [0, cnt + 1, cnt - 1 or 1, 512, 513, 2 ** 28, 2 ** 32 - 1])
+        elif m < 0.2:
+            fields["flags"] = pick(rng, [0x10, 0x11, 0xFFEF, 0xFFFF, 0x200])
+        elif m < 0.3:
+            fields["fts"] = pick(rng, [2 ** 64 - 1, used, used - 1, lower, lower - 1, idt, idt - 1, 0])
+        elif m < 0.4:
+            fields["dts"] = pick(rng, [0, start, start + 1, (locs[0] + 1), 2 ** 64 - 1])
+        elif m < 0.5:
+            fields["ets"] = pick(rng, [0, lower, locs[-1], locs[-1] + 1, start, start + 1, idt - 1, idt, idt + 1])
+        elif m < 0.6:
+            fields["idt"] = pick(rng, [0, start, start + 1, locs[-1] + 1, used, 2 ** 64 - 1])
+        elif m < 0.65:
+            fields["bytes_used"] = pick(rng, [0, start, start + 1])
+        lines += ["img " + hx(img), sb_line(**fields), "fragtable"]
+        n = fields["frag_count"] & 0xFFFFFFFF
+        for i in sorted({0, 1, max(n - 1, 0), n, (n + 1) & 0xFFFFFFFF, 0xFFFFFFFF}):
+            if i * 16 < 10 ** 7 or i >= n:
+                lines.append("fragidx %d" % i)
+    return lines
+
+
+XPFX = {0: 5, 1: 8, 2: 9}
+
+
+def gen_xattr_group(rng):
+    """one image with an xattr table, then calls on a fresh reader"""
+    pad = 96
+    clean = rng.random() < 0.4                                # a well-formed table: the success paths of every routine
+    img = bytearray(rng.randrange(256) for _ in range(pad))
+    win_start = pick(rng, [0, pad, pad])                      # super.id_table_start: start of both readers' window
+    # ---- key-value stream: pairs laid out in consecutive blocks
+    kv = bytearray()
+    pairs = []                                                 # (offset in stream, type, ksize, vsize, ool)
+    ool_vals = []
+    npairs = rng.randint(1, 6)
+    for _ in range(npairs):
+        t = pick(rng, [0, 1, 2, 0x100, 0x101, 0x102, 0x200, 0x8001] if clean else
+                 [0, 0, 1, 2, 2, 3, 0xFF, 0x100, 0x101, 0x102, 0x103, 0x200, 0x8000, 0xFFFF])
+        ks = pick(rng, [0, 1, 4, 30, 255, 300])
+        at = len(kv)
+        kv += struct.pack("<HH", t, ks) + bytes(rng.randrange(1, 256) for _ in range(ks))
+        if t & 0x100:
+            kv += struct.pack("<I", pick(rng, [8, 8, 0, 9]))
+            ool_vals.append(len(kv))
+            kv += struct.pack("<Q", 0)                          # patched below
+            vs = pick(rng, [0, 1, 50, 700])
+        else:
+            vs = pick(rng, [0, 1, 17, 400, 9000])
+            kv += struct.pack("<I", vs) + bytes(rng.randrange(256) for _ in range(vs))
+        pairs.append((at, t, ks, vs))
+    # plain values for the out-of-line references
+    ool_targets = []
+    for _ in ool_vals:
+        vs = pick(rng, [0, 1, 50, 700])
+        ool_targets.append((len(kv), vs))
+        kv += struct.pack("<I", vs) + bytes(rng.randrange(256) for _ in range(vs))
+    tail_kind = 1.0 if clean else rng.random()
+    if tail_kind < 0.25:
+        kv += struct.pack("<HHI", 0, 3, 2 ** 32 - 1)[:pick(rng, [2, 4, 8])]     # a pair cut off / key bytes missing
+    elif tail_kind < 0.4:
+        kv += struct.pack("<HH", 0, 2) + b"ab" + struct.pack("<I", pick(rng, [2 ** 32 - 1, 2 ** 31, 70000]))   # huge value, no data
+    xstart = len(img)
+    blk_of = []                                                # stream offset of every block start
+    bsz = pick(rng, [8192, 8192, 1000, 4096])
+    chunks = [kv[i:i + bsz] for i in range(0, len(kv), bsz)] or [b""]
+    pos = []
+    for ch in chunks:
+        pos.append(len(img) - xstart)
+        img += mblock(ch)
+
+    def ref_of(stream_off):
+        b = stream_off // bsz
+        return (pos[b] << 16) | (stream_off % bsz)
+
+    # patch the out-of-line references (value = location of a plain value, relative to xattr_table_start)
+    for vi, (where, tgt) in enumerate(zip(ool_vals, ool_targets)):
+        r = ref_of(tgt[0])
+        k = 1.0 if clean else rng.random()
+        if k < 0.12:
+            r = pick(rng, [(len(img) - xstart + 50) << 16, (2 ** 47) << 16, (pos[0] << 16) | 8192, (pos[0] << 16) | 0xFFFF, (pos[-1] << 16) | len(chunks[-1]),
+                           ((2 ** 48 - 1) << 16) | 5])
+        b, o = where // bsz, where % bsz
+        # the 8 bytes may straddle two blocks: patch byte-wise in the image
+        rb = struct.pack("<Q", r & (2 ** 64 - 1))
+        for j in range(8):
+            so = where + j
+            img[xstart + pos[so // bsz] + 2 + so % bsz] = rb[j]
+    # ---- descriptors
+    descs = []
+    nd = pick(rng, [1, 2, 3, 3, 513])
+    for d in range(nd):
+        first = rng.randrange(len(pairs))
+        cnt = pick(rng, [1, len(pairs) - first, len(pairs) - first, len(pairs) - first + 1, 0, 2 ** 32 - 1]) if d < 8 else 1
+        x = ref_of(pairs[first][0])
+        if not clean and rng.random() < 0.1 and d < 8:
+            x = pick(rng, [(len(img)) << 16, x | 0xFFFF, x + (1 << 16), (2 ** 48 - 1) << 16, ((2 ** 48) - (xstart >> 0)) << 16])
+        descs.append((x & (2 ** 64 - 1), cnt, 0, first))
+    raw = b"".join(struct.pack("<QII", x, c, sz) for x, c, sz, _ in descs)
+    idlocs = []
+    for i in range(0, len(raw), 8192):
+        idlocs.append(len(img))
+        img += mblock(raw[i:i + 8192])
+    xat = len(img)
+    ids_field = nd
+    m = 1.0 if clean else rng.random()
+    if m < 0.1:
+        ids_field = pick(rng, [0, nd + 1, 511, 512, 513, 1025, 2 ** 32 - 1])
+    tstart_field = xstart
+    if 0.1 < m < 0.18:
+        tstart_field = pick(rng, [0, xstart + 1, len(img), 2 ** 64 - 1, 2 ** 64 - xstart])
+    if 0.18 < m < 0.26 and idlocs:
+        idlocs[rng.randrange(len(idlocs))] = pick(rng, [0, win_start - 1 if win_start else 0, len(img) + 200, 2 ** 64 - 1, xat])
+    img += struct.pack("<QII", tstart_field, ids_field, 0) + b"".join(struct.pack("<Q", l) for l in idlocs)
+    img += bytes(rng.randrange(256) for _ in range(pick(rng, [0, 40])))
+    used = len(img)
+    if 0.26 < m < 0.32:
+        img = img[:len(img) - pick(rng, [1, 41, 49, 57])]
+    fields = dict(bytes_used=used, idt=win_start, xat=xat)
+    if 0.32 < m < 0.4:
+        fields["flags"] = pick(rng, [0x200, 0x210, 0xFFFF, 0x100])
+    elif 0.4 < m < 0.48:
+        fields["xat"] = pick(rng, [2 ** 64 - 1, used, used - 1, used + 1, 0, xat + 8, xat - 8])
+    elif 0.48 < m < 0.54:
+        fields["bytes_used"] = pick(rng, [xat, xat + 1, xat + 16, idlocs[0] if idlocs else 0, 2 ** 64 - 1])
+    elif 0.54 < m < 0.6:
+        fields["idt"] = pick(rng, [xstart + 1, xat, used, 2 ** 64 - 1])
+    head = ["img " + hx(img), sb_line(**fields)]
+    groups = []
+    # descriptor lookups
+    g = ["xnew"]
+    if rng.random() < 0.15:
+        g.append("xdesc 0")                                    # before any table is loaded
+        g.append("xdesc 1")
+        g.append("xseek 0")
+    g.append("xload")
+    for i in sorted({0, 1, nd - 1, nd, nd + 1, 511, 512, 513, 0xFFFFFFFF, 0xFFFFFFFE, ids_field & 0xFFFFFFFF, (ids_field - 1) & 0xFFFFFFFF}):
+        g.append("xdesc %d" % i)
+    if rng.random() < 0.2:
+        g.append("xload")                                      # a second load on the same object
+        g.append("xdesc 0")
+    groups.append(g)
+    # key / value calls along the stream
+    for d in range(min(nd, 3)):
+        x, cnt, _, first = descs[d]
+        g = ["xnew", "xload", "xseek %d" % x]
+        for (at, t, ks, vs) in pairs[first:first + 3]:
+            g.append("xkey")
+            g.append("xval %d" % (t if rng.random() < 0.9 else t ^ 0x100))
+        g.append("xkey")
+        groups.append(g)
+    # read_all
+    for d in sorted({0, 1, nd - 1, nd, 0xFFFFFFFF}):
+        groups.append(["xnew", "xload", "xall %d" % d, "xall %d" % d])
+    out = list(head)
+    for g in groups:
+        out += g
+    return out
+
+
+def gen_dopen_lines(rng):
+    lines = ["img -"]
+    for _ in range(12):
+        dts = pick(rng, [0, 96, 1000, 2 ** 32, 2 ** 64 - 1, 2 ** 64 - 0x10000])
+        root = pick(rng, [0, 5 << 16, 77])
+        lines.append(sb_line(dts=dts, root=root))
+        rdf = pick(rng, [0, 1, 1, 1])
+        of = pick(rng, [0, 0, 1, 1, 2, 3, 0x80000000, 0xFFFFFFFF])
+        ty = pick(rng, [1, 1, 8, 8, 0, 2, 9, 7, 14, 0xFFFF])
+        sblk = pick(rng, B32X)
+        off = pick(rng, [0, 1, 8191, 8192, 0xFFFF])
+        sz = pick(rng, [0, 3, 4, 12, 15, 16, 23, 24, 0xFFFF, 0x10000, 0x10003, 0xFFFFFFFF])
+        inum = pick(rng, [1, 2, 0, 0xFFFFFFFF])
+        par = pick(rng, [1, 3, 0, 0xFFFFFFFF])
+        cache = []
+        if rng.random() < 0.8:
+            cache.append("%d:%d" % (inum, pick(rng, [root, root, 9 << 16, 0])))
+        if rng.random() < 0.6:
+            cache.append("%d:%d" % (par, pick(rng, [root, 4 << 16, 2 ** 48 - 1])))
+        if rng.random() < 0.3:
+            cache.append("%d:%d" % (rng.randint(4, 9), 12345))
+        rng.shuffle(cache)
+        lines.append("dopen %d %d %d %d %d %d %d %d %s" % (rdf, of, ty, sblk, off, sz, inum, par, ",".join(cache) or "-"))
+    return lines
+
+
+def gen_dirlist_lines(rng):
+    """a directory table with one listing (several headers), read with listing sizes around every boundary"""
+    pad = pick(rng, [96, 200])
+    img = bytearray(rng.randrange(256) for _ in range(pad))
+    dts = len(img)
+    listing = bytearray()
+    marks = [0]
+    for _ in range(rng.randint(1, 3)):
+        n = pick(rng, [1, 1, 2, 5, 40, 256, 257]) if rng.random() < 0.85 else pick(rng, [256, 257, 300])
+        cfield = n - 1
+        k = rng.random()
+        if k < 0.1:
+            cfield = pick(rng, [255, 256, 0xFFFFFFFF, n, max(n - 2, 0)])
+        listing += struct.pack("<III", cfield & 0xFFFFFFFF, pick(rng, [0, 7, 2 ** 32 - 1]), rng.randint(1, 50))
+        marks.append(len(listing))
+        for e in range(n if n <= 257 else 257):
+            ns = pick(rng, [0, 0, 2, 7, 30, 255]) if rng.random() < 0.97 else pick(rng, [1000, 0xFFFF])
+            listing += struct.pack("<HhHH", rng.randrange(8192), rng.randint(-3, 3), pick(rng, [1, 2, 3]), ns) + bytes(rng.randrange(1, 256) for _ in range(min(ns + 1, 1200)))
+            marks.append(len(listing))
+            if len(listing) > 30000:
+                break
+    bsz = pick(rng, [8192, 8192, 500])
+    start_off = pick(rng, [0, 0, 10])
+    stream = bytes(rng.randrange(256) for _ in range(start_off)) + bytes(listing)
+    for i in range(0, len(stream), bsz):
+        img += mblock(stream[i:i + bsz])
+    limit = len(img)
+    img += bytes(rng.randrange(256) for _ in range(pick(rng, [0, 16])))
+    k = rng.random()
+    if k < 0.15:
+        img = img[:limit - pick(rng, [1, 5, 200])]
+    lines = ["img " + hx(img)]
+    fields = dict(bytes_used=len(img) + 10, idt=limit, dts=dts)
+    m = rng.random()
+    if m < 0.1:
+        fields["fts"] = pick(rng, [dts, dts + 2, limit - 1, 0])
+    elif m < 0.2:
+        fields["ets"] = pick(rng, [dts, dts + 1, limit - 3, 0])
+    elif m < 0.3:
+        fields["idt"] = pick(rng, [dts, dts + 1, limit - 1, limit + 1, 0, 2 ** 64 - 1])
+    elif m < 0.36:
+        fields["dts"] = pick(rng, [dts + 1, dts - 1, 0, 2 ** 64 - 1])
+    lines.append(sb_line(**fields))
+    total = len(listing)
+    sizes = {0, 1, 3, 12, 13, 15, 16, 20, 23, 24, total, total + 1, total + 2, total + 3, total + 4, total + 20, 0xFFFFFFFF}
+    for mk in rng.sample(marks, min(len(marks), 6)):
+        sizes |= {mk + 2, mk + 3, mk + 4, mk + 3 + 8, mk + 3 + 12, mk + 3 + 9}
+    for sz in sorted(sizes):
+        lines.append("dirlist %d %d %d" % (0, start_off, sz & 0xFFFFFFFF))
+    lines.append("dirlist %d %d %d" % (pick(rng, [1, 2, 2 ** 32 - 1]), start_off, total + 3))
+    lines.append("dirlist %d %d %d" % (0, pick(rng, [start_off + 1, 8191, 8192, 0xFFFF]), total + 3))
+    return lines
+
+
+def gen_dentry_lines(rng):
+    lines = []
+    for _ in range(10):
+        used = pick(rng, [0, 1, 2, 2, 300, 3000])
+        ui = pick(rng, [0, 1, max(used - 1, 0), used & 0xFFFF, 0xFFFF])
+        gi = pick(rng, [0, 1, max(used - 1, 0), used & 0xFFFF, 0xFFFF])
+        nn = pick(rng, [0, 1, 2, 5, 40, 255, 256])
+        name = bytearray(rng.randrange(1, 256) for _ in range(nn))
+        if nn and rng.random() < 0.4:
+            name[rng.randrange(nn)] = 0
+        ln = pick(rng, [0, 1, nn, nn + 1, max(nn - 1, 0), nn // 2])
+        lines.append("dentry %d %d %d %d %s" % (used, ui, gi, ln, hx(name)))
+    return lines
+
 def run_harness(ctx, exe, lines):
     """run the line harness with crash recovery: returns list of outputs; a crashed line gets ('CRASH', rc, stderr)"""
     out = [None] * len(lines)
@@ -254,9 +656,13 @@ def run_harness(ctx, exe, lines):
             break
         out[i + done] = ("CRASH", rc, err[-3000:])
         # state lines that must be replayed: last img, and the reader is gone (next group starts with its own mr)
+        last_img, last_sb = None, None
         for l in lines[:i + done + 1]:
             if l.startswith("img "):
-                ctxlines = [l]
+                last_img, last_sb = l, None
+            elif l.startswith("sb "):
+                last_sb = l
+        ctxlines = [x for x in (last_img, last_sb) if x]
         i = i + done + 1
     return out
 
@@ -291,6 +697,14 @@ def routine_level(ctx, harness, stats):
             groups.append(("inode", gen_inode_lines(ctx.rng)))
             groups.append(("unpack", gen_unpack_lines(ctx.rng)))
             groups.append(("resolve", gen_resolve_lines(ctx.rng)))
+            groups.append(("super", gen_super_lines(ctx.rng)))
+            groups.append(("dopen", gen_dopen_lines(ctx.rng)))
+            groups.append(("dentry", gen_dentry_lines(ctx.rng)))
+        if g % 3 == 0:
+            groups.append(("table", gen_table_lines(ctx.rng)))
+            groups.append(("dirlist", gen_dirlist_lines(ctx.rng)))
+        if g % 3 != 2:
+            groups.append(("xattr", gen_xattr_group(ctx.rng)))
     lines, owner = [], []
     for gi, (kind, ls) in enumerate(groups):
         lines += ls
@@ -300,15 +714,20 @@ def routine_level(ctx, harness, stats):
     cur = ctx.driver(["c05", "current"], text)
     impl = run_harness(ctx, harness, lines)
     assert len(model) == len(lines) == len(cur)
-    # per meta group: after the first failed call the reader state is implementation-defined (the repairs of
-    # D2 and D3 differ there); those lines are run for safety only
+    # The reader objects keep being used after failed calls and every such line is compared (the models carry the
+    # state a failed call leaves behind).  Only after the allocator refused a request the model granted (`err ALLOC`
+    # from the real code, accepted below) the two sides are out of step until the object is made anew.
     poisoned = set()
+    xpoisoned = False
     nontrivial = set()
     hist = {}
+    XOPS = ("xdesc", "xseek", "xkey", "xval", "xall")
     for i, l in enumerate(lines):
-        op = l.split()[0]
+        op = l.split(" ", 1)[0]
         if op == "mr":
             poisoned.discard(owner[i])
+        if op in ("xnew", "img"):
+            xpoisoned = False
         m = model[i]
         m_status = m.split(" UNSAFE")[0]
         if " UNSAFE" in m:
@@ -338,19 +757,23 @@ def routine_level(ctx, harness, stats):
             continue
         if got is None:
             continue
-        if owner[i] in poisoned and op in ("seek", "read"):
+        if (owner[i] in poisoned and op in ("seek", "read")) or (xpoisoned and op in XOPS):
             stats["post_failure_lines"] += 1
             continue
-        if op in ("seek", "read") and got.startswith("err"):
-            poisoned.add(owner[i])
+        if op in ("seek", "read") + XOPS and got.startswith("err"):
+            stats["failed_calls_then_used_on"] = stats.get("failed_calls_then_used_on", 0) + 1
         if got.startswith("err") or "err" in got.split()[-2:]:
-            nontrivial.add(l)
+            nontrivial.add(l if len(l) < 300 else op + ":" + vlib.sha(l)[:12] + ":" + str(i))
         if op in ("dread", "inode", "dirent") and got.startswith("err ") and got != "err ALLOC":
             got = "err"                            # the model does not name the error for these operations
         if got == m_status:
             continue
         if got == "err ALLOC":
             stats["alloc_refused"] = stats.get("alloc_refused", 0) + 1        # the allocator may refuse any request
+            if op in XOPS:
+                xpoisoned = True
+            if op in ("seek", "read"):
+                poisoned.add(owner[i])
             continue
         opkey = OP_KEYS.get(op)
         if got == c_status and not c_unsafe and opkey and ctx.known_finding(opkey) is not None:
@@ -372,6 +795,115 @@ def routine_level(ctx, harness, stats):
                           found_input=False)
     stats["routine_ops"] = hist
     return nontrivial, lines, impl, model
+
+
+
+# ====================================================================== A2. the codec contract on the real decompressors
+COMP_NAMES = {1: "gzip", 2: "lzma", 3: "lzo", 4: "xz", 5: "lz4", 6: "zstd"}
+
+
+class RealCodec:
+    """the compressors of the working tree behind the routine-level harness (persistent process, one line per block)"""
+    def __init__(self, ctx, exe):
+        self.p = subprocess.Popen([str(exe)], stdin=subprocess.PIPE, stdout=subprocess.PIPE, stderr=subprocess.DEVNULL, text=True,
+                                  env=ctx.san_env({"ASAN_OPTIONS": ASAN_OPTS}))
+
+    def ask(self, line):
+        self.p.stdin.write(line + "\n")
+        self.p.stdin.flush()
+        return self.p.stdout.readline().strip()
+
+    def compress(self, cid, bs, data):
+        a = self.ask("cpack %d %d %s" % (cid, bs, hx(data)))
+        return bytes.fromhex(a[3:]) if a.startswith("ok ") else None
+
+    def available(self, cid):
+        return self.ask("cpack %d 4096 00" % cid) != "nocomp"
+
+    def close(self):
+        try:
+            self.p.stdin.close()
+            self.p.wait(timeout=10)
+        except Exception:
+            self.p.kill()
+
+
+def codec_level(ctx, harness, stats):
+    """every compiled-in block decompressor on valid, truncated and edited streams with `outsize` below, at and above the
+    real size: the return value must be negative or <= outsize (the hypothesis of the theorems), no sanitizer report"""
+    rng = ctx.rng
+    rc = RealCodec(ctx, harness)
+    ids = [c for c in range(1, 7) if rc.available(c)]
+    stats["codecs"] = [COMP_NAMES[c] for c in ids]
+    payloads = [bytes(100), bytes(8192), b"ab" * 2000, bytes((i * 7 + i // 13) % 251 for i in range(5000)), b"x",
+                bytes(rng.randrange(4) for _ in range(3000))]
+    lines, meta = [], []          # meta: (comp id, outsize, expected size when the call must succeed or None)
+    nmut = 6 if ctx.quick() else 40
+    for cid in ids:
+        for pl in payloads:
+            bs = 8192 if len(pl) <= 8192 else 131072
+            blob = rc.compress(cid, bs, pl)
+            if blob is None:
+                continue
+            L = len(pl)
+            for outsize in sorted({0, 1, max(L - 1, 0), L, L + 1, 8192, 2 * L + 17}):
+                lines.append("cunpack %d %d %d %s" % (cid, bs, outsize, hx(blob)))
+                meta.append((cid, outsize, L if outsize >= L else None))
+            for _ in range(nmut):
+                b = bytearray(blob)
+                k = rng.random()
+                if k < 0.25:
+                    b = b[:rng.randrange(len(b))]
+                elif k < 0.6:
+                    for _ in range(rng.randint(1, 3)):
+                        b[rng.randrange(len(b))] ^= 1 << rng.randrange(8)
+                elif k < 0.8 and len(b) > 16:
+                    # size fields: LZMA-alone header bytes 5..12, zstd frame header, gzip/xz trailers
+                    at = pick(rng, [5, 6, 8, 4, len(b) - 4, len(b) - 8, 1, 2])
+                    b[at:at + 4] = struct.pack("<I", pick(rng, [0, 1, L - 1 if L else 0, L + 1, 8192, 8193, 0x7FFFFFFF, 0xFFFFFFFF]))
+                else:
+                    b += bytes(rng.randrange(256) for _ in range(rng.randint(1, 20)))
+                outsize = pick(rng, [0, 1, max(L - 1, 0), L, 8192, 100])
+                lines.append("cunpack %d %d %d %s" % (cid, bs, outsize, hx(b)))
+                meta.append((cid, outsize, None))
+        for _ in range(nmut):
+            junk = bytes(rng.randrange(256) for _ in range(pick(rng, [0, 1, 5, 13, 14, 64, 300])))
+            outsize = pick(rng, [0, 1, 100, 8192])
+            lines.append("cunpack %d %d %d %s" % (cid, 8192, outsize, hx(junk)))
+            meta.append((cid, outsize, None))
+    rc.close()
+    out = run_harness(ctx, harness, lines)
+    mon, monidx = [], []
+    hist = {}
+    for i, (l, o) in enumerate(zip(lines, out)):
+        cid, outsize, want = meta[i]
+        stats["codec_calls"] = stats.get("codec_calls", 0) + 1
+        if isinstance(o, tuple):
+            ctx.violation("codec-crash:%s:%s" % (COMP_NAMES[cid], vlib.sha(l)[:8]),
+                          "the %s decompressor of the tree aborted (rc=%s, %s) on a block with outsize=%d" % (COMP_NAMES[cid], o[1], crash_site(o[2] or ""), outsize),
+                          {"kind": "routine", "lines": [l], "rc": o[1], "stderr": (o[2] or "")[-1500:]})
+            continue
+        cls = (o or "none").split()[0]
+        hist[COMP_NAMES[cid] + ":" + cls] = hist.get(COMP_NAMES[cid] + ":" + cls, 0) + 1
+        if o and o.startswith("ret "):
+            mon.append("codecret %d %s" % (outsize, o.split()[1]))
+            monidx.append(i)
+            if want is not None and int(o.split()[1]) != want:
+                ctx.violation("codec-roundtrip:%s:%s" % (COMP_NAMES[cid], vlib.sha(l)[:8]),
+                              "the %s decompressor returns %s for a block its own compressor made from %d bytes (outsize %d)" % (COMP_NAMES[cid], o, want, outsize),
+                              {"kind": "routine", "lines": [l]}, found_input=False)
+            elif want is not None:
+                stats["codec_roundtrips"] = stats.get("codec_roundtrips", 0) + 1
+    verdicts = ctx.driver(["c05"], "\n".join(mon) + "\n") if mon else []
+    assert len(verdicts) == len(mon), "model driver answered %d of %d lines" % (len(verdicts), len(mon))
+    for v, i in zip(verdicts, monidx):
+        if v != "ok":
+            cid, outsize, _ = meta[i]
+            ctx.violation("codec-contract:%s:%s" % (COMP_NAMES[cid], vlib.sha(lines[i])[:8]),
+                          "the %s decompressor reports %s for outsize=%d: more bytes than the buffer holds (the contract every theorem about a caller of do_block assumes)"
+                          % (COMP_NAMES[cid], out[i], outsize), {"kind": "routine", "lines": [lines[i]], "impl": out[i]})
+    stats["codec_hist"] = hist
+    return ids
 
 
 # ====================================================================== B. walk level
@@ -413,13 +945,56 @@ def graph_spec(fg, edges, inums, finums):
     return ";".join(parts)
 
 
+def nesting_limit():
+    """SQFS_MAX_DIR_NESTING of the working tree (None: the tree has no nesting limit; the models are then run with the
+    value fixes/C05-nesting-limit.patch proposes and every difference is the recorded finding)"""
+    try:
+        m = re.search(r"#define\s+SQFS_MAX_DIR_NESTING\s+(\d+)", (vlib.REPO / "include/sqfs/dir.h").read_text())
+    except OSError:
+        m = None
+    return int(m.group(1)) if m else None
+
+
+def fixed_graphs(limit):
+    """deterministic walk-level cases: (label, edges, inums, short_names)"""
+    out = [("shared:listed-twice", [[1, 1], []], [1, 2], False),
+           ("shared:two-parents", [[1, 2], [3], [3], []], [1, 2, 3, 4], False),
+           ("shared:diamond4", [[i + 1, i + 1] for i in range(4)] + [[]], [1, 2, 3, 4, 5], False),
+           ("shared:below-sibling", [[1, 2], [2], []], [1, 2, 3], False),
+           ("inum:two-dirs-same-number", [[1, 2], [], []], [1, 2, 2], False),
+           ("tree:plain", [[1, 2], [3], [], []], [1, 2, 3, 4], False)]
+    for n in (limit - 1, limit, limit + 1, limit + 2):
+        out.append(("chain:%d" % n, [[i + 1] for i in range(n)] + [[]], list(range(1, n + 2)), True))
+    return out
+
+
+def walk_known_key(want, cur, impl):
+    """the tree behaves like the model of the unpatched walks where the repaired model refuses: which recorded finding"""
+    if impl == cur and want != cur:
+        if want == "err LINK_LOOP":
+            return K_DAG
+        if want == "err OVERFLOW":
+            return K_DEEP
+    return None
+
+
 def walk_level(ctx, tools, stats):
     n = 25 if ctx.quick() else 300
     cyc_budget = 2 if ctx.quick() else 10
     d = ctx.scratch / "walk"
     d.mkdir(exist_ok=True)
     env = ctx.san_env({"ASAN_OPTIONS": ASAN_OPTS})
+    tree_limit = nesting_limit()
+    limit = tree_limit if tree_limit is not None else 4096
+    stats["nesting_limit_of_tree"] = tree_limit
     specs = []
+    for label, edges, inums, short in fixed_graphs(limit):
+        fg = F.graph_image(edges, inums)
+        if short:
+            for dn in fg.nodes:
+                dn.entries = [(b"d", e[1]) for e in dn.entries]
+        img = fg.build()
+        specs.append((graph_spec(fg, edges, inums, []), img, edges, [inums, None, [], []], label))
     for k in range(n):
         edges, inums, ext, finums, fext = gen_graph(ctx.rng)
         fg = F.graph_image(edges, inums, len(finums), ext, finums, fext)
@@ -427,65 +1002,103 @@ def walk_level(ctx, tools, stats):
         spec = graph_spec(fg, edges, inums, finums)
         stats["walk_ext_dirs"] = stats.get("walk_ext_dirs", 0) + sum(ext)
         stats["walk_basic_dirs"] = stats.get("walk_basic_dirs", 0) + len(ext) - sum(ext)
-        specs.append((spec, img, edges, [inums, ext, finums, fext]))
-    model = ctx.driver(["c05"], "\n".join("walk " + s[0] for s in specs) + "\n")
-    for (spec, img, edges, inums), ml in zip(specs, model):
-        mm = re.match(r"tree (ok \d+|err \S+|diverges) tar (ok \d+|err \S+|diverges)", ml)
-        if not mm:
-            ctx.violation("corr:walk:parse", "model answered %r" % ml, {"spec": spec}, found_input=False)
+        specs.append((spec, img, edges, [inums, ext, finums, fext], "random"))
+    text = "\n".join("walkl %d %s" % (limit, s[0]) for s in specs) + "\n"
+    model = ctx.driver(["c05"], text)
+    current = ctx.driver(["c05", "current"], text)
+    assert len(model) == len(specs) == len(current), "model driver answered %d/%d of %d walk lines" % (len(model), len(current), len(specs))
+    pat = r"tree (ok \d+|err \S+|diverges) tar (ok \d+|err \S+|diverges)"
+
+    def known(key, what, rp):
+        stats["known_walk"][key] = stats["known_walk"].get(key, 0) + 1
+        ctx.violation(key, what, rp)
+
+    for (spec, img, edges, inums, label), ml, cl in zip(specs, model, current):
+        mm, cm = re.match(pat, ml), re.match(pat, cl)
+        if not mm or not cm:
+            ctx.violation("corr:walk:parse", "model answered %r / %r" % (ml[:200], cl[:200]), {"spec": spec[:2000]}, found_input=False)
             continue
+        chain = label.startswith("chain:")
         p = d / "g.sqfs"
         p.write_bytes(img)
         stats["walk_images"] += 1
+        mk = "walk_model_" + (mm.group(1).split()[1] if mm.group(1).startswith("err") else "ok")
+        stats[mk] = stats.get(mk, 0) + 1
+        img_rp = base64.b64encode(img).decode() if len(img) < 400000 else "(walk-level case %s, rebuilt by the check)" % label
         # rdsquashfs -d : fill_dir
-        r = run_tool(ctx, [str(tools["rdsquashfs"]), "-d", str(p)], env, 20)
+        r = run_tool(ctx, [str(tools["rdsquashfs"]), "-d", str(p)], env, 60 if chain else 20, keep_all=chain)
         # one line per tree node; the root directory itself ("dir / ...", printed by newer describe.c) is not a node below the root
         cnt = len([l for l in r["out"].splitlines() if l.split(" ")[0] in ("dir", "file", "slink", "nod", "pipe", "sock")
                    and l.split(" ")[1:2] not in (["/"], ['"/"'])])
-        impl = ("ok %d" % cnt) if r["rc"] == 0 else ("err LINK_LOOP" if "link loop" in r["err"] else "err rc=%s %s" % (r["rc"], r["err"][-80:]))
+        if r["rc"] == 0:
+            impl = "ok %d" % cnt
+        elif "link loop" in r["err"]:
+            impl = "err LINK_LOOP"
+        elif "numeric overflow" in r["err"]:
+            impl = "err OVERFLOW"
+        else:
+            impl = "err rc=%s %s" % (r["rc"], r["err"][-80:])
         graph = {i: [j for j in e if j >= 0] for i, e in enumerate(edges)}
         big = (F.tree_size(graph, 0) or 0) > 200000
         if impl != mm.group(1) and not big:
-            ctx.violation("corr:walk:fill_dir:" + vlib.sha(spec)[:8], "rdsquashfs -d on a forged directory graph: impl=%s model=%s" % (impl, mm.group(1)),
-                          {"kind": "image", "image_b64": base64.b64encode(img).decode(), "cmd": ["rdsquashfs", "-d"], "model": ml,
-                           "impl_stdout": r["out"][:2000], "impl_stderr": r["err"][:1000], "graph": [edges, inums]},
-                          found_input=(r["rc"] in (98, 99, "timeout") or (isinstance(r["rc"], int) and r["rc"] < 0)))
+            rp = {"kind": "image", "image_b64": img_rp, "cmd": ["rdsquashfs", "-d"], "model": ml, "model_current": cl, "case": label,
+                  "impl_stdout": r["out"][:2000], "impl_stderr": r["err"][:1000], "graph": [edges, inums] if not chain else label}
+            key = walk_known_key(mm.group(1), cm.group(1), impl)
+            if key:
+                known(key, "rdsquashfs -d delivers %s where the repaired fill_dir answers %s (case %s)" % (impl, mm.group(1), label), rp)
+            else:
+                ctx.violation("corr:walk:fill_dir:" + vlib.sha(spec)[:8], "rdsquashfs -d on a forged directory graph (%s): impl=%s model=%s" % (label, impl, mm.group(1)), rp,
+                              found_input=(r["rc"] in (98, 99, "timeout") or (isinstance(r["rc"], int) and r["rc"] < 0)))
         # the other users of fill_dir: unpack and sqfsdiff must end by themselves as well (error exit on a loop)
         for nm, cmd in (("rdsquashfs -u", [str(tools["rdsquashfs"]), "-u", "/", "-p", str(d / "un"), "-q", str(p)]),
                         ("sqfsdiff", [str(tools["sqfsdiff"]), "-a", str(p), "-b", str(p)])):
+            if chain:
+                break                                   # paths longer than PATH_MAX: nothing to unpack or compare
             r2 = run_tool(ctx, cmd, env, 20)
             shutil.rmtree(d / "un", ignore_errors=True)
             died = classify_tool_failure(nm, r2, img)[0] != "ok"        # sanitizer report, signal, timeout (benign qsort(NULL,0) excluded)
-            wrong = (mm.group(1) == "err LINK_LOOP" and r2["rc"] == 0)
+            wrong = (mm.group(1).startswith("err") and r2["rc"] == 0)
             if (died or wrong) and not big:
-                ctx.violation("corr:walk:%s:%s" % (nm.split()[0], vlib.sha(spec)[:8]),
-                              "%s on a forged directory graph: rc=%s, model of fill_dir: %s (%s)" % (nm, r2["rc"], mm.group(1), crash_site(r2["err"])),
-                              {"kind": "image", "image_b64": base64.b64encode(img).decode(), "cmd": [nm.split()[0]] + ([nm.split()[1]] if " " in nm else []),
-                               "model": ml, "stderr": r2["err"][:1500], "graph": [edges, inums]}, found_input=died)
+                rp = {"kind": "image", "image_b64": img_rp, "cmd": [nm.split()[0]] + ([nm.split()[1]] if " " in nm else []),
+                      "model": ml, "model_current": cl, "stderr": r2["err"][:1500], "graph": [edges, inums]}
+                if wrong and not died and cm.group(1).startswith("ok") and walk_known_key(mm.group(1), cm.group(1), cm.group(1)):
+                    known(walk_known_key(mm.group(1), cm.group(1), cm.group(1)),
+                          "%s reads a tree the repaired fill_dir refuses (%s; case %s)" % (nm, mm.group(1), label), rp)
+                else:
+                    ctx.violation("corr:walk:%s:%s" % (nm.split()[0], vlib.sha(spec)[:8]),
+                                  "%s on a forged directory graph: rc=%s, model of fill_dir: %s (%s)" % (nm, r2["rc"], mm.group(1), crash_site(r2["err"])),
+                                  rp, found_input=died)
         # sqfs2tar : dir_rec
         cyclic = F.has_cycle(graph, 0)
         if cyclic:
             if cyc_budget <= 0:
                 continue
             cyc_budget -= 1
-        r = run_tool(ctx, [str(tools["sqfs2tar"]), str(p)], env, 6 if cyclic else 20, tar_count=True)
-        want = mm.group(2)
+        r = run_tool(ctx, [str(tools["sqfs2tar"]), str(p)], env, 6 if cyclic else (120 if chain else 20), tar_count=True)
+        want, cur = mm.group(2), cm.group(2)
         if r["rc"] == 0:
             impl = "ok %d" % r["count"]
         elif r["rc"] == "timeout" or "rss limit" in r["err"]:
             impl = "diverges"
         elif r["rc"] in (98, 99) or (isinstance(r["rc"], int) and r["rc"] < 0):
             impl = "crash rc=%s" % r["rc"]
+        elif "link loop" in r["err"].lower():
+            impl = "err LINK_LOOP"
+        elif "numeric overflow" in r["err"]:
+            impl = "err OVERFLOW"
         else:
-            impl = "err LINK_LOOP" if "link loop" in r["err"].lower() else "err other"
+            impl = "err other"
         stats["walk_tar_" + impl.split()[0]] = stats.get("walk_tar_" + impl.split()[0], 0) + 1
-        if impl == want or (want.startswith("err") and impl.startswith("err")):
+        if impl == want or (want.startswith("err") and impl == "err other"):
             continue
-        rp = {"kind": "image", "image_b64": base64.b64encode(img).decode(), "cmd": ["sqfs2tar"], "model": ml, "impl": impl}
-        if impl == "diverges" and cyclic:
-            ctx.violation(K_D17, "sqfs2tar does not terminate on an image whose directory graph has a cycle (model of the current dir_rec.c: diverges for every fuel)", rp)
+        rp = {"kind": "image", "image_b64": img_rp, "cmd": ["sqfs2tar"], "model": ml, "model_current": cl, "impl": impl, "case": label}
+        key = walk_known_key(want, cur, impl)
+        if key:
+            known(key, "sqfs2tar delivers %s where the repaired recursive iterator answers %s (case %s)" % (impl, want, label), rp)
+        elif impl == "diverges" and cyclic:
+            ctx.violation(K_D17, "sqfs2tar does not terminate on an image whose directory graph has a cycle (model of the walk without any check: diverges for every fuel)", rp)
         else:
-            ctx.violation("corr:walk:dir_rec:" + vlib.sha(spec)[:8], "sqfs2tar on a forged directory graph: impl=%s model=%s" % (impl, want), rp,
+            ctx.violation("corr:walk:dir_rec:" + vlib.sha(spec)[:8], "sqfs2tar on a forged directory graph (%s): impl=%s model=%s" % (label, impl, want), rp,
                           found_input=impl.startswith(("crash", "diverges")))
 
 
@@ -496,7 +1109,7 @@ def clip(b):
     return t if len(t) <= 9000 else t[:6000] + "\n[...]\n" + t[-3000:]
 
 
-def run_tool(ctx, cmd, env, timeout, tar_count=False, cwd=None):
+def run_tool(ctx, cmd, env, timeout, tar_count=False, cwd=None, keep_all=False):
     t0 = time.time()
     try:
         if tar_count:
@@ -516,7 +1129,7 @@ def run_tool(ctx, cmd, env, timeout, tar_count=False, cwd=None):
             err = clip(p.stderr.read())
             return {"rc": rc, "out": "", "err": err, "count": cnt, "t": time.time() - t0}
         r = subprocess.run(cmd, stdout=subprocess.PIPE, stderr=subprocess.PIPE, env=env, timeout=timeout, cwd=cwd)
-        return {"rc": r.returncode, "out": r.stdout[-200000:].decode(errors="replace"), "err": clip(r.stderr), "t": time.time() - t0}
+        return {"rc": r.returncode, "out": (r.stdout if keep_all else r.stdout[-200000:]).decode(errors="replace"), "err": clip(r.stderr), "t": time.time() - t0}
     except subprocess.TimeoutExpired as e:
         return {"rc": "timeout", "out": "", "err": clip(e.stderr or b""), "t": time.time() - t0}
 
@@ -570,8 +1183,8 @@ def mutate_bytes(rng, img):
     return bytes(b), desc
 
 
-def real_images(ctx, gen, n):
-    """valid images from the working tree's gensquashfs (gzip, compressed metadata)"""
+def real_images(ctx, gen, n, comps):
+    """valid images from the working tree's gensquashfs, one compressor after the other (compressed metadata)"""
     out = []
     d = ctx.scratch / "realsrc"
     for k in range(n):
@@ -579,6 +1192,10 @@ def real_images(ctx, gen, n):
             shutil.rmtree(d)
         (d / "a" / "b").mkdir(parents=True)
         (d / "a" / "small.txt").write_bytes(b"hello\n" * ctx.rng.randint(1, 50))
+        try:
+            os.setxattr(d / "a" / "small.txt", "user.c05", b"value" * 30)
+        except OSError:
+            pass
         (d / "a" / "b" / "big.bin").write_bytes(bytes(ctx.rng.randrange(256) for _ in range(ctx.rng.choice([5000, 9000, 20000]))))
         (d / "a" / "zero").write_bytes(bytes(12288))
         (d / "empty").write_bytes(b"")
@@ -586,9 +1203,12 @@ def real_images(ctx, gen, n):
         for i in range(ctx.rng.randint(0, 30)):
             (d / "a" / ("f%02d" % i)).write_bytes(b"%d" % i)
         img = ctx.scratch / ("real%d.sqfs" % k)
-        r = vlib.sh([str(gen), "-D", str(d), "-b", str(ctx.rng.choice([4096, 8192])), "-q", "-f", str(img)], env=ctx.san_env())
+        r = vlib.sh([str(gen), "-D", str(d), "-b", str(ctx.rng.choice([4096, 8192])), "-c", comps[k % len(comps)], "-x", "-q", "-f", str(img)],
+                    env=ctx.san_env())
         if r.returncode == 0:
             out.append(img.read_bytes())
+        else:
+            ctx.log("gensquashfs -c %s failed: %s" % (comps[k % len(comps)], r.stderr[-200:]))
     return out
 
 
@@ -604,7 +1224,11 @@ def tool_jobs(tools, api, p, p2, scratch_dir, rng_seed):
         ("rdsquashfs -x", [str(t["rdsquashfs"]), "-x", "/f2", str(p)]),
         ("rdsquashfs -x2", [str(t["rdsquashfs"]), "-x", "/sub/deep", str(p)]),
         ("rdsquashfs -u", [str(t["rdsquashfs"]), "-u", "/", "-p", str(scratch_dir), "-q", str(p)]),
+        ("rdsquashfs -uXCOT", [str(t["rdsquashfs"]), "-u", "/", "-p", str(scratch_dir) + "2", "-X", "-C", "-O", "-T", "-q", str(p)]),
         ("sqfs2tar", [str(t["sqfs2tar"]), str(p)]),
+        ("sqfs2tar -d", [str(t["sqfs2tar"]), "-d", "sub", "-X", str(p)]),
+        ("sqfs2tar -dk", [str(t["sqfs2tar"]), "-d", "sub/deep", "-k", str(p)]),
+        ("sqfs2tar -r", [str(t["sqfs2tar"]), "-r", "newroot", "-d", "a", "-d", "sub", str(p)]),
         ("sqfsdiff", [str(t["sqfsdiff"]), "-a", str(p2), "-b", str(p)]),
         ("api", [str(api), str(p), str(rng_seed)]),
     ]
@@ -614,6 +1238,12 @@ def classify_tool_failure(name, r, img):
     """returns (known key or None, description)"""
     rc, err = r["rc"], r["err"]
     site = crash_site(err)
+    if name == "api" and rc == 0:
+        m = re.search(r"calls=(\d+) errors=\d+ entries=\d+ strbytes=\d+ stopped=(\w+)", r.get("out", "") or "")
+        if not m or int(m.group(1)) == 0:
+            return None, "the API driver ended without reporting any executed call (stdout %r)" % (r.get("out", "") or "")[-120:]
+    if name == "api" and rc == 3:
+        return None, "the API driver could not open the image file"
     if rc == 98 and err.count("runtime error:") == 1 and "which is declared to never be null" in err and " in fill_unpacked_files " in err:
         # qsort(NULL, 0, ...) when an image holds no regular file (also on valid empty images): undefined by the letter of
         # the standard, no access happens; reported in docs/design/C05.md, not a violation of C05
@@ -655,7 +1285,7 @@ def classify_tool_failure(name, r, img):
     return "ok", ""
 
 
-def tool_level(ctx, tools, api, stats):
+def tool_level(ctx, tools, api, harness, stats):
     rng = ctx.rng
     quick = ctx.quick()
     env = ctx.san_env({"ASAN_OPTIONS": ASAN_OPTS})
@@ -677,17 +1307,40 @@ def tool_level(ctx, tools, api, stats):
     if pt.exists():
         images.append(("repo:pathtraversal", pt.read_bytes(), []))
     bases = []
-    for k in range(3 if quick else 8):
-        fg = F.sample_tree(rng, rng.choice([4096, 8192]), compress_meta=(k % 3 == 2), compress_data=(k % 2 == 1), big=(k == 1))
+    comp_ids = stats.get("codec_ids") or [1]
+    codec = RealCodec(ctx, harness)
+    # base 0/1: uncompressed metadata (every field addressable by the mutator); the others: every compressor id the tree
+    # was built with, metadata and data compressed (block compressors written in the forge for gzip/xz/lzma, the real
+    # compressor behind the harness for lz4/zstd)
+    plan = [(1, False, False), (1, False, True)] + [(c, True, True) for c in comp_ids if c != 1] + [(1, True, True)]
+    if quick:
+        plan = plan[:2] + [plan[2 + ctx.seed % (len(plan) - 2)]] if len(plan) > 2 else plan
+    for k, (cid, cmeta, cdata) in enumerate(plan):
+        bs = rng.choice([4096, 8192])
+        real = (lambda d, cid=cid, bs=bs: codec.compress(cid, max(bs, 8192), d)) if F.py_codec(cid) is None else None
+        fg = F.sample_tree(rng, bs, compress_meta=cmeta, compress_data=cdata, big=(k == 1), comp_id=cid, codec=real)
         img = fg.build()
-        bases.append(("forge%d" % k, img, fg.fields))
-        images.append(("forge%d:valid" % k, img, []))
-    reals = real_images(ctx, tools["gensquashfs"], 2 if quick else 5)
+        lab = "forge%d-%s" % (k, COMP_NAMES[cid])
+        bases.append((lab, img, fg.fields))
+        images.append((lab + ":valid", img, []))
+        stats.setdefault("forge_compressors", []).append(COMP_NAMES[cid] + ("+meta" if cmeta else ""))
+    codec.close()
+    # inode mode fields whose file type bits contradict the inode type (set_mode must derive the type from the inode type:
+    # a regular file presented as a symlink would have its block list printed as a C string, ...)
+    for kind, base_types, bits in (("file-as-lnk", (2,), 0o120000), ("file-as-dir", (2,), 0o040000), ("lnk-as-reg", (3,), 0o100000),
+                                   ("special-as-lnk", (4, 5, 6, 7), 0o120000), ("all-bits", (2, 3, 4, 5, 6, 7), 0o170000)):
+        fg = F.sample_tree(__import__("random").Random(5), 4096)
+        for nd in fg.nodes:
+            if nd.base_type() in base_types:
+                nd.f["mode"] = (F.MODE[nd.base_type()] & 0o7777) | bits
+        images.append(("probe:mode-%s" % kind, fg.build(), ["mode-type-bits"]))
+    comps = [COMP_NAMES[c] for c in comp_ids]
+    reals = real_images(ctx, tools["gensquashfs"], max(2, len(comps)) if quick else 2 * len(comps), comps)
     for k, img in enumerate(reals):
         images.append(("real%d:valid" % k, img, []))
     nvalid = len(images)
-    n_field = 140 if quick else 3000
-    n_byte = 60 if quick else 1500
+    n_field = 110 if quick else 3000
+    n_byte = 50 if quick else 1500
     for k in range(n_field):
         lab, img, fields = bases[k % len(bases)]
         m, desc = mutate_field(rng, img, fields, 1 if rng.random() < 0.8 else rng.randint(2, 3))
@@ -729,12 +1382,18 @@ def tool_level(ctx, tools, api, stats):
                 jobs = [j for j in jobs if j[0] in ("rdsquashfs -d", "sqfs2tar")]
             elif lab.startswith("t1_"):
                 jobs = [j for j in jobs if j[0] == "rdsquashfs -d"]
+            if quick and idx >= nvalid and idx % 3 != 0:
+                # the option variants of unpack / sqfs2tar: every valid image, a third of the mutated ones
+                jobs = [j for j in jobs if j[0] not in ("rdsquashfs -uXCOT", "sqfs2tar -d", "sqfs2tar -dk", "sqfs2tar -r")]
             for name, cmd in jobs:
-                if name == "sqfs2tar":
+                if name.startswith("sqfs2tar"):
                     r = run_tool(ctx, cmd, env, timeout, tar_count=True)
                 else:
                     r = run_tool(ctx, cmd, env, timeout, cwd=str(wd))
-                r.pop("out", None)
+                if name == "api":
+                    r["out"] = r.get("out", "")[-300:]
+                else:
+                    r.pop("out", None)
                 out.append((name, cmd, r))
         finally:
             shutil.rmtree(wd, ignore_errors=True)
@@ -755,10 +1414,19 @@ def tool_level(ctx, tools, api, stats):
                 p = ctx.scratch / "confirm.sqfs"
                 p.write_bytes(img)
                 cmd2 = [str(p) if a.endswith("/i.sqfs") else a for a in cmd]
-                r = run_tool(ctx, cmd2, env, 4 * timeout, tar_count=(name == "sqfs2tar"))
-                r.pop("out", None)
+                r = run_tool(ctx, cmd2, env, 4 * timeout, tar_count=name.startswith("sqfs2tar"))
+                if name != "api":
+                    r.pop("out", None)
                 stats["timeouts_rechecked"] = stats.get("timeouts_rechecked", 0) + 1
                 key, what = classify_tool_failure(name, r, img)
+            if name == "api":
+                m = re.search(r"calls=(\d+) errors=(\d+) entries=(\d+)", r.get("out", "") or "")
+                if m:
+                    stats["api_calls"] = stats.get("api_calls", 0) + int(m.group(1))
+                    stats["api_errors_returned"] = stats.get("api_errors_returned", 0) + int(m.group(2))
+                    if idx < nvalid and lab.endswith(":valid") and int(m.group(3)) < 10:
+                        ctx.violation("valid-rejected:%s:api" % lab, "the API driver visits %s entries of a valid image (%s)" % (m.group(3), r["out"][-100:]),
+                                      {"kind": "image", "image_b64": base64.b64encode(img).decode(), "cmd": ["h_c05_api"]}, found_input=False)
             cls = "exit0" if r["rc"] == 0 else ("error-exit" if key == "ok" else ("known" if key else "FAIL"))
             hist[name + ":" + cls] = hist.get(name + ":" + cls, 0) + 1
             if key == "ok":
@@ -804,15 +1472,17 @@ def run(ctx):
             return ctx.finish(LEVEL)
     harness, api, tools = build_all(ctx)
     stats = {"lines": 0, "crashes": 0, "disagreements": 0, "post_failure_lines": 0, "known_crashes": {}, "known_silent": {},
-             "walk_images": 0, "tool_runs": 0, "known_tool": {}}
+             "walk_images": 0, "tool_runs": 0, "known_tool": {}, "known_walk": {}}
     t0 = time.time()
     nontrivial, lines, impl, model = routine_level(ctx, harness, stats)
+    stats["codec_ids"] = codec_level(ctx, harness, stats)
     t1 = time.time()
-    ctx.log("routine level: %d lines, %d crashes, %d disagreements (%.1fs)" % (stats["lines"], stats["crashes"], stats["disagreements"], t1 - t0))
+    ctx.log("routine level: %d lines, %d crashes, %d disagreements; %d decompressor calls on %s (%.1fs)" % (
+        stats["lines"], stats["crashes"], stats["disagreements"], stats.get("codec_calls", 0), ",".join(stats.get("codecs", [])), t1 - t0))
     walk_level(ctx, tools, stats)
     t2 = time.time()
     ctx.log("walk level: %d graphs (%.1fs)" % (stats["walk_images"], t2 - t1))
-    tool_level(ctx, tools, api, stats)
+    tool_level(ctx, tools, api, harness, stats)
     t3 = time.time()
     ctx.log("tool level: %d images, %d runs (%.1fs)" % (stats["tool_images"], stats["tool_runs"], t3 - t2))
     samples = []
@@ -828,11 +1498,17 @@ def run(ctx):
                 "sub-directories and colliding inode numbers. tool level: forged valid images + gensquashfs images, one to three on-disk "
                 "fields set to boundary/neighbour/random values or 1-4 byte-level edits, through 10 tool invocations + the API driver",
         "routine_lines": stats["lines"], "routine_ops": stats.get("routine_ops"), "routine_crashes": stats["crashes"],
-        "routine_disagreements": stats["disagreements"], "routine_post_failure_lines_not_compared": stats["post_failure_lines"],
+        "routine_disagreements": stats["disagreements"], "routine_lines_not_compared_after_refused_allocation": stats["post_failure_lines"],
+        "routine_failed_calls_with_the_object_used_on_and_compared": stats.get("failed_calls_then_used_on", 0),
         "known_routine_crashes": stats["known_crashes"], "known_routine_silent": stats["known_silent"],
         "walk_graphs": stats["walk_images"], "walk_tar": {k: v for k, v in stats.items() if k.startswith("walk_tar_")},
+        "walk_model_fill_dir": {k: v for k, v in stats.items() if k.startswith("walk_model_")},
+        "nesting_limit_of_tree": stats.get("nesting_limit_of_tree"), "known_walk_differences": stats["known_walk"],
         "tool_images": stats["tool_images"], "tool_images_valid": stats["tool_images_valid"], "tool_runs": stats["tool_runs"],
         "tool_outcomes": stats.get("tool_hist"), "known_tool_failures": stats["known_tool"],
+        "decompressor_calls": stats.get("codec_calls", 0), "decompressors": stats.get("codecs"), "decompressor_outcomes": stats.get("codec_hist"),
+        "decompressor_roundtrips": stats.get("codec_roundtrips", 0), "forge_compressors": stats.get("forge_compressors"),
+        "api_calls_executed": stats.get("api_calls", 0), "api_errors_returned": stats.get("api_errors_returned", 0),
         "inputs_per_sec": round((stats["lines"] + stats["tool_runs"]) / max(t3 - t0, 0.01), 1),
         "wall": {"routine_s": round(t1 - t0, 1), "walk_s": round(t2 - t1, 1), "tool_s": round(t3 - t2, 1)},
         "samples": samples, "disagreements_checked": stats["disagreements"] + stats["crashes"],
@@ -865,7 +1541,13 @@ def replay(ctx, path):
                 print(o[2][-1500:])
                 bad = True
         last = out[-1]
-        if not isinstance(last, tuple) and last is not None and last != model[-1].split(" UNSAFE")[0]:
+        if lines[-1].startswith("cunpack "):
+            # decompressor call: the specification is the codec contract, evaluated on the real answer
+            if not isinstance(last, tuple) and last and last.startswith("ret "):
+                v = ctx.driver(["c05"], "codecret %s %s\n" % (lines[-1].split()[3], last.split()[1]))
+                print("codec contract:", v)
+                bad = bad or v != ["ok"]
+        elif not isinstance(last, tuple) and last is not None and last != model[-1].split(" UNSAFE")[0]:
             bad = True
         print("reproduces:", bad)
         return 1 if bad else 0
